@@ -197,10 +197,6 @@ example := (reported_generation_eq_stored 28 Ex.db).1 101 Ex.v2 Ex.provider_101
 
 /-! ### root and parent -/
 
-/-- the row of the provider queries for provider `p` whose root row is `root` -/
-def viewOf (db : DB R) (p root : RpRow) : RpView :=
-  ⟨p, root.uuid, p.parent.bind (fun i => (db.rpById i).map (·.uuid))⟩
-
 /-- From 1.14 the provider body reports the uuid of the stored row whose id is the stored `root`
 (no such row: the inner join finds nothing, 404), and as parent the uuid of the stored row whose id
 is the stored `parent` (`null` without parent); the same for every element of the listing. -/
@@ -263,13 +259,6 @@ example : ((getRp 14 Ex.db 101).2.fld? .rootProviderUuid).bind Body.name? = some
 example := (provider_body_reports_root_and_parent_rows 14 (by decide) Ex.db).1 101 Ex.v2.row (by decide)
 
 /-! ### usage totals -/
-
-/-- the groups of the 1.38 format of `GET /usages`: (key, {class: sum, consumer_count: n}) -/
-def usageGroupsOf (b : Body R) : List (Key × Body R) := ((b.fld? .usages).getD .null).fields
-
-/-- the consumers `consumer_count` counts for a type condition: distinct consumer uuids of the joined rows -/
-def countedConsumers (db : DB R) (project : Nat) (user : Option Nat) (tp : Option Nat → Bool) : List Nat :=
-  ((totalRows db project user tp).map (·.1.consumer)).eraseDups
 
 /-- `countedConsumers` has no duplicates and consists exactly of the consumers of the project (user,
 type) that hold allocations, so its length is their number -/
